@@ -490,6 +490,12 @@ func (sm *Sim) genKey(s *Sess, depth int) *snode {
 		}
 		return leaf(imap.SearchCriteria{NotFlag: []imap.Flag{imap.Flag(kw)}}, "UNKEYWORD "+kw, "keyword")
 	case 6, 7:
+		for _, m := range s.sel.Msgs {
+			if !m.DateKnown {
+				// a message without a known internal date: no date keys in this mailbox
+				return leaf(imap.SearchCriteria{}, "ALL", "all")
+			}
+		}
 		d := searchDate(r)
 		ds := d.Format("2-Jan-2006")
 		if r.Intn(3) == 0 {
